@@ -7,7 +7,7 @@ import sys
 
 patch = os.path.abspath(sys.argv[1])
 checks = sys.argv[2:]
-REPO = "/repo"
+REPO = os.environ.get("VERIF_REPO", "/repo")
 assert subprocess.run(["git", "-C", REPO, "status", "--porcelain", "--untracked-files=no"], capture_output=True, text=True).stdout.strip() == "", "repo dirty"
 r = subprocess.run(["git", "-C", REPO, "apply", "--whitespace=nowarn", patch], capture_output=True, text=True)
 if r.returncode != 0:
